@@ -5,11 +5,18 @@ on a changed tree reports a missing baseline obligation as undecided and may rep
 input as `no-failing-input-found` only if it is in this list."""
 import glob, json, os
 here = os.path.dirname(os.path.abspath(__file__))
-out = {}
+bp = os.path.join(here, "baseline", "obligations.json")
+out = json.load(open(bp)) if os.path.exists(bp) else {}
 for p in sorted(glob.glob(os.path.join(here, "evidence", "C*.json"))):
     ev = json.load(open(p))
     proved = [s["obligation"] for s in ev["coverage"]["samples"] if s["status"] == "discharged"]
-    out[ev["property_id"]] = {"proved": proved, "count": len(proved)}
+    # one list per tier; only the list of the tier the evidence file was written in is replaced
+    e = out.setdefault(ev["property_id"], {})
+    if ev.get("tier") == "thorough":
+        e["proved_thorough"] = proved
+    else:
+        e["proved"] = proved
+        e["count"] = len(proved)
 os.makedirs(os.path.join(here, "baseline"), exist_ok=True)
-json.dump(out, open(os.path.join(here, "baseline", "obligations.json"), "w"), indent=1)
-print({k: v["count"] for k, v in out.items()})
+json.dump(out, open(bp, "w"), indent=1)
+print({k: (v.get("count"), len(v.get("proved_thorough", []))) for k, v in out.items()})
